@@ -1,8 +1,8 @@
-(** Lemmas about the sweep of Model/Smooth.v on one coordinate column (C15):
+(** Lemmas about the sweep of Model/C15_Smooth.v on one coordinate column (C15):
     frame, update = average, fixed point <-> harmonic, max-norm monotonicity, uniqueness of the
     harmonic configuration (discrete maximum principle), affine lattices, copy back. *)
 From Coq Require Import List Bool Arith ZArith QArith Qabs Lia Lqa.
-From CB Require Import Model.Smooth.
+From CB Require Import Model.C15_Smooth.
 Import ListNotations.
 Close Scope Q_scope.
 Open Scope nat_scope.
